@@ -336,7 +336,7 @@ def main():
                 hist[fam]['cases'] += 1; hist[fam]['classes'].add(tags[k][1])
                 key = i.split(' ')[0] if i else ''
                 hist[fam]['outs'][key] = hist[fam]['outs'].get(key, 0) + 1
-            if m != i:
+            if m != i or m.startswith('ERR') or i.startswith('ERR'):
                 if l in known_lines:
                     known_hit.add(l); continue
                 nd += 1
